@@ -110,6 +110,19 @@ impl VideoState {
     self.current_mode
   }
 
+  /// (line, mode, dots elapsed in the current mode)
+  #[cfg(gb_dynarec_verif)]
+  pub fn verif_position(&self) -> (u8, u8, usize) {
+    (self.current_line, self.current_mode, self.current_mode_dots)
+  }
+
+  #[cfg(gb_dynarec_verif)]
+  pub fn verif_set_position(&mut self, line: u8, mode: u8, dots: usize) {
+    self.current_line = line;
+    self.current_mode = mode;
+    self.current_mode_dots = dots;
+  }
+
   pub fn set_lcd_control(&mut self, value: u8) {
     self.lcd.set_enabled(value & 0x80 != 0);
     self.window_map_offset = if value & 0x40 == 0 {
@@ -439,6 +452,8 @@ impl VideoState {
   }
 
   pub fn run_clock_cycles(&mut self, cycles: ClockCycles, vram: &Box<[u8]>, oam: &Box<[u8]>) -> InterruptFlag {
+    #[cfg(gb_dynarec_verif)]
+    crate::mem::verif::clock(1, cycles.as_usize());
     let mut cycles_remaining = cycles.as_usize();
     let mut interrupt_state = InterruptFlag::empty();
     while cycles_remaining > 0 {
